@@ -34,19 +34,22 @@ Definition flat_result (r : option (list Z)) : list Z :=
   | None => [0; 0]
   end.
 
-(* extra per-operation observables of a property, computed on the state BEFORE the operation *)
+(* extra per-operation observables of a property: [pre] is computed on the state BEFORE the operation,
+   [post] on the states before and AFTER it (given the operation and its response) *)
 Definition pre_obs := state -> op -> list Z.
+Definition post_obs := state -> state -> op -> option (list Z) -> list Z.
 Definition no_pre : pre_obs := fun _ _ => [].
+Definition no_post : post_obs := fun _ _ _ _ => [].
 
-Fixpoint scan (pre : pre_obs) (s : state) (ops : list op) : list Z :=
+Fixpoint scan (pre : pre_obs) (post : post_obs) (s : state) (ops : list op) : list Z :=
   match ops with
   | [] => []
   | o :: r => let '(s', res) := step s o in
-              pre s o ++ flat_result res ++ flat_state s' ++ scan pre s' r
+              pre s o ++ flat_result res ++ flat_state s' ++ post s s' o res ++ scan pre post s' r
   end.
 
 Definition case_init (c : case) : state :=
   init_state (c_spacing c) (c_spread c) (c_scaling c) [(c_fund c, c_fund c); (c_fund c, c_fund c); (c_fund c, c_fund c)] (c_time c).
-Definition model_obs (pre : pre_obs) (c : case) : list Z :=
-  flat_state (case_init c) ++ scan pre (case_init c) (c_ops c).
-Definition case_ok_with (pre : pre_obs) (c : case) : bool := zlist_eqb (model_obs pre c) (c_expect c).
+Definition model_obs (pre : pre_obs) (post : post_obs) (c : case) : list Z :=
+  flat_state (case_init c) ++ scan pre post (case_init c) (c_ops c).
+Definition case_ok_with (pre : pre_obs) (post : post_obs) (c : case) : bool := zlist_eqb (model_obs pre post c) (c_expect c).
